@@ -47,7 +47,8 @@ META = {
     "engine": "wire",
 }
 RULE = ("sequences of 1-5 requests on one connection; each request draws 0-3 proxy headers from IP / legacy / scoped / "
-        "garbage / list generators (multiple lines, case variants of the header names), optionally a body or a "
+        "dotted-quad near-miss (leading-zero / octal-invalid / >255 / hex / signed / non-ASCII-digit parts, wrong part "
+        "counts) / garbage / list generators (multiple lines, case variants of the header names), optionally a body or a "
         "handler that raises or a path that is not routed; configs: trusted_downstream in {none, 1, 3 entries}, "
         "protocol in {None, https}, plain callable or web.Application; a sequence is non-trivial if it has >= 2 "
         "requests of which one carries a proxy header and a later one lacks it or carries a different one; distinct "
@@ -81,7 +82,45 @@ NAMES = {
 }
 
 
+# Dotted quads and their near misses: text that LOOKS like an IPv4 address but is one only if every part survives the
+# platform's numeric parsers (inet_pton; leniently inet_aton): leading zeros (octal: 08 / 09 / 018 are no numbers),
+# parts above 255, hex parts, signs, digit separators, non-ASCII digits, wrong part counts.
+OCTET_LEAD0 = ["00", "000", "01", "07", "08", "09", "010", "017", "018", "019", "008", "009", "077", "078", "080", "089",
+               "099", "0377", "0400", "0008", "0000", "0255", "0256"]
+OCTET_BIG = ["256", "260", "299", "300", "999", "1000", "0x100", "4294967295"]
+OCTET_HEX = ["0x8", "0xff", "0XfF", "0x0", "0x", "0x1g", "ff"]
+OCTET_ODD = ["", "+1", "-1", " 1", "1 ", "1_0", "1e1", "0b1", "0o7", "\xb2", "\xb9", "1\xa0", "\xbc"]
+
+
+def gen_octet(rng, odd_p):
+    if rng.random() >= odd_p:
+        return str(rng.choice([0, 1, 8, 9, 10, 99, 100, 127, 199, 200, 249, 250, 255, rng.randrange(256)]))
+    r = rng.random()
+    if r < 0.5:
+        if rng.random() < 0.5:
+            return rng.choice(OCTET_LEAD0)
+        return "0" * rng.choice([1, 1, 2]) + str(rng.choice([8, 9, rng.randrange(10), rng.randrange(100)]))
+    if r < 0.7:
+        return rng.choice(OCTET_BIG)
+    if r < 0.85:
+        return rng.choice(OCTET_HEX)
+    return rng.choice(OCTET_ODD)
+
+
+def gen_quad(rng):
+    n = rng.choice([4] * 12 + [3, 5, 2])
+    parts = [gen_octet(rng, 0.35) for _ in range(n)]
+    if all(p.isascii() and p.isdigit() and str(int(p)) == p and int(p) < 256 for p in parts) and rng.random() < 0.7:
+        parts[rng.randrange(n)] = gen_octet(rng, 1.0)   # make sure most draws are near misses, not plain addresses
+    q = ".".join(parts)
+    if rng.random() < 0.03:
+        q += "."
+    return q
+
+
 def gen_ip(rng, trusted):
+    if rng.random() < 0.15:
+        return gen_quad(rng)
     r = rng.random()
     if r < 0.4:
         return rng.choice(V4)
@@ -178,6 +217,13 @@ def directed_cases():
                    "host": "example.com",
                    "reqs": [rq(0, ("real", "X-Real-Ip", "1.2.3.4"), ("scheme", "X-Scheme", "https")), rq(1),
                             rq(2, ("xff", "X-Forwarded-For", "9.9.9.9, 8.8.8.8")), rq(3)]}
+    # dotted quads that are no numeric IP for inet_pton / inet_aton: the socket address must be reported.
+    # "10.\xb2.0.0" is the witness of fixes/C32-is-valid-ip-non-ascii-digits (idna NFKC turned the superscript into "2")
+    yield {"engine": "vloop", "app": "callable", "trusted": [], "protocol": None, "family": "unix", "mode": "seq",
+           "host": "example.com",
+           "reqs": [rq(0, ("real", "X-Real-Ip", "10.\xb2.0.0")), rq(1, ("xff", "X-Forwarded-For", "1.2.3.4, 10.0.0.08")),
+                    rq(2, ("real", "X-Real-Ip", "09.9.9.9")), rq(3, ("xff", "X-Forwarded-For", "1.2.3.256")),
+                    rq(4, ("real", "X-Real-Ip", "1.2.3.\xb9"), ("xff", "X-Forwarded-For", "1.018.3.4"))]}
     yield {"engine": "vloop", "app": "web", "trusted": ["10.0.0.1"], "protocol": None, "family": "unix", "mode": "seq",
            "host": "example.com",
            "reqs": [rq(0, ("xff", "X-Forwarded-For", "4.4.4.4, 10.0.0.1"), beh="raise"), rq(1),
@@ -455,7 +501,10 @@ def run_case(case, ctx):
                 ctx.violation("remote_ip/value-from-earlier-request", "remote_ip carries a value that only an earlier "
                               "request on the connection supplied", wit)
             elif isinstance(ip, str) and ip in xr.split_list(lines["real"] + lines["xff"]):
-                ctx.violation("remote_ip/non-numeric-header-value-accepted",
+                # shape of the accepted text (different validators fail on different shapes)
+                shape = ("/non-ascii-text" if not ip.isascii() else
+                         "/digits-and-dots" if ip and all(c in "0123456789." for c in ip) else "")
+                ctx.violation("remote_ip/non-numeric-header-value-accepted" + shape,
                               "remote_ip was taken from a proxy header although it is not a numeric IP address", wit)
             else:
                 ctx.violation("remote_ip/neither-socket-address-nor-header-entry",
